@@ -66,6 +66,8 @@ def cat(*ts, dim):
 
     if hasattr(ts[0], "__len__"):
         ts = ts[0]
+    if any(t.batch for t in ts):
+        raise ValueError("Batched tensors are not supported.")
     if len(ts) == 1:
         return ts[0].clone()
     if any(
@@ -114,6 +116,8 @@ def transpose(t):
     :return: another :class:`Tensor`, indexed by dimensions in inverse order
     """
 
+    if t.batch:
+        raise ValueError("Batched tensors are not supported.")
     cores = []
     Us = []
     idxs = []
